@@ -20,12 +20,13 @@ RULE = ('random directories of 2-7 model files in up to 3 sub-directories with r
         'repeated load returns the cached object without opening files and later loads share the cached files. One case in ten: '
         'FQNImportURI(importAs=True) with named / unnamed / repeated imports of 2-4 colliding library files, some loaded before '
         '(by another file of the load, by an earlier load of a global repository): plain names resolve through own definitions '
-        'then unnamed imports in order, named imports only through their name, out-of-scope names fail. distinct = '
+        'then unnamed imports in order, named imports only through their name, out-of-scope names fail. One case in ten: two metamodel objects sharing one GlobalModelRepository load overlapping closures alternately. distinct = '
         '(import graph shape, provider, repository mode); non-trivial = graph has a cycle, a diamond or a colliding name')
 REQUIRED = {'top_level_loads': 300, 'files_open_checked': 800, 'references_checked': 500, 'cyclic_graphs': 30,
             'colliding_names_resolved': 50, 'cached_reloads': 30, 'builtin_model_resolutions': 10, 'glob_imports': 10,
             'search_path_loads': 10, 'rrel_m_loads': 10, 'search_path_shadow_cases': 50, 'named_import_cases': 50,
-            'named_import_references_checked': 200, 'references_through_import_name': 50, 'out_of_scope_names_checked': 20}
+            'named_import_references_checked': 200, 'references_through_import_name': 50, 'out_of_scope_names_checked': 20,
+            'shared_repository_cases': 50, 'shared_repository_references': 100}
 
 PROVIDERS = ['plain', 'fqn', 'search', 'rrel', 'globalrepo']
 
@@ -265,7 +266,80 @@ def named_imports(ctx, i, rep):
         shutil.rmtree(tmp, ignore_errors=True)
 
 
+def shared_repository(ctx, i, rep):
+    """Two metamodel objects (same grammar) use ONE GlobalModelRepository: a file reached through both is loaded once, both
+    see the same model object and the same elements, and a repeated load through either returns the cached model."""
+    from textx import metamodel_from_str, TextXError
+    from textx.scoping import GlobalModelRepository
+    import textx.scoping.providers as sp
+    r = ctx.rng('shared', i)
+    M.SPY.install()
+    tmp = tempfile.mkdtemp(prefix='tvc17r_')
+    try:
+        d = M.gen_dir(r, tmp, collisions=False)
+        M.add_refs(d, r)
+        M.write_dir(d)
+        repo = GlobalModelRepository()
+        prov = r.choice(['plain', 'fqn'])
+        mms = []
+        for _ in range(2):
+            mm = metamodel_from_str(M.GRAMMAR, global_repository=repo)
+            mm.register_scope_providers({'*.*': sp.PlainNameImportURI() if prov == 'plain' else sp.FQNImportURI()})
+            mms.append(mm)
+        tops = [r.choice(d.order) for _ in range(r.randint(2, 4))]
+        wit = {'files': {f: M.file_text(d, f) for f in d.order}, 'loads': tops, 'provider': prov}
+        ctx.count('shared_repository_cases')
+        ctx.case(('shared-repository', tuple(tuple(d.order.index(t) for t in d.files[f]['imports']) for f in d.order), prov,
+                  tuple(d.order.index(t) for t in tops)), len(set(tops)) > 1, wit if ctx.evaluations < 3 else None)
+        M.SPY.reset(tmp)
+        seen = {}
+        loaded = set()
+        for k, top in enumerate(tops):
+            mm = mms[k % 2]
+            try:
+                m = mm.model_from_file(d.files[top]['path'])
+            except TextXError as e:
+                ctx.violation(None, 'shared repository: load %d (%s) failed: %s' % (k, top, str(e)[:120]), wit, rep)
+                return
+            loaded |= set(M.closure(d, top))
+            for f in sorted(loaded):
+                n = M.SPY.counts.get(d.files[f]['path'], 0)
+                if n != 1:
+                    ctx.violation(None, 'shared repository: after load %d (%s, through metamodel %d) file %s was opened %d times in '
+                                  'all (each file of the closures is read once)' % (k, top, k % 2, f, n), wit, rep)
+                    return
+            models = all_models_reachable(m)
+            for fn, lst in models.items():
+                if not fn:
+                    continue
+                b = os.path.relpath(fn, tmp)
+                if len(lst) != 1:
+                    ctx.violation(None, 'shared repository: %d model objects for %s' % (len(lst), b), wit, rep)
+                    return
+                if b in seen and seen[b] is not lst[0]:
+                    ctx.violation(None, 'shared repository: load %d (%s) uses another model object for %s than an earlier load' % (k, top, b), wit, rep)
+                    return
+                seen[b] = lst[0]
+            if seen.get(top) is not m:
+                ctx.violation(None, 'shared repository: the model returned for %s is not the one stored for that file' % top, wit, rep)
+                return
+        # every reference of every model points into the one model object of the file that defines the name
+        owner = {dn: f for f in d.order for dn, _ in d.files[f]['defs']}
+        for b, mo in seen.items():
+            for ref in getattr(mo, 'refs', []):
+                for t in [ref.target] + list(ref.more):
+                    ctx.count('shared_repository_references')
+                    if model_of(t) is not seen.get(owner[t.name]):
+                        ctx.violation(None, 'shared repository: reference %s of %s points to an element %s outside the model object '
+                                      'of %s' % (ref.name, b, t.name, owner[t.name]), wit, rep)
+                        return
+    finally:
+        shutil.rmtree(tmp, ignore_errors=True)
+
+
 def one(ctx, i, rep=None):
+    if i % 10 == 9:
+        return shared_repository(ctx, i, rep or {'i': i})
     if i % 10 == 3:
         return named_imports(ctx, i, rep or {'i': i})
     if i % 10 == 7:
